@@ -92,12 +92,21 @@ ReadWantsMore(V, M, completed) ==
   \/ Recoverable(M) = {}
   \/ UnrecNewer(V, M) # {}
 
-(* ---- Retrieve ------------------------------------------------------------- *)
-GoodShnums(L, M, v) == {sh \in Shnums : \E s \in DOMAIN M : M[s][sh] = v /\ BodyValid(L[s][sh])}
+(* ---- Retrieve --------------------------------------------------------------
+   Retrieve takes the k lowest share numbers of the chosen version, validates every block
+   against the block-hash tree, the share-hash chain and the signed root hash, and replaces
+   a share that fails by further share numbers.  A server that delivered a failing share is
+   dropped with all its shares (Retrieve._mark_bad_share / _handle_bad_share: "removing the
+   remote server from further activity"), so whether a valid share that is co-located with a
+   corrupt one gets used depends on the order.  Sure success: k valid share numbers on servers
+   all of whose shares of that version are valid.  Possible success: k valid share numbers. *)
+CleanServer(L, M, v, s) == \A sh \in Shnums : M[s][sh] = v => BodyValid(L[s][sh])
+GoodShnums(L, M, v) == {sh \in Shnums : \E s \in DOMAIN M : M[s][sh] = v /\ BodyValid(L[s][sh]) /\ CleanServer(L, M, v, s)}
 RetrieveOK(L, M, v) == v # 0 /\ Cardinality(GoodShnums(L, M, v)) >= K
 RetrieveMaybe(L, M, v) == v # 0 /\ Cardinality({sh \in Shnums : \E s \in DOMAIN M : M[s][sh] = v /\ BodyMaybe(L[s][sh])}) >= K
-\* version delivered by download_best_version on map M (0 = error)
-ReadVersion(V, L, M) == IF RetrieveOK(L, M, Best(V, M)) THEN Best(V, M) ELSE 0
+\* versions download_best_version may deliver on map M (0 = error)
+RetrieveOutcomes(L, M, v) == IF RetrieveOK(L, M, v) THEN {v} ELSE IF RetrieveMaybe(L, M, v) THEN {v, 0} ELSE {0}
+ReadVersions(V, L, M) == RetrieveOutcomes(L, M, Best(V, M))
 
 (* ---- MutableChecker ------------------------------------------------------- *)
 HealthyMap(V, M) ==
